@@ -85,6 +85,11 @@ func (fx *Fx) autoCandidateTerms(li *LoopInfo, pre, cur map[*ssa.Phi]Val) map[st
 		}
 		switch u := p.Type().Underlying().(type) {
 		case *types.Basic:
+			if u.Info()&types.IsBoolean != 0 && len(cv.L) == 1 && len(pv.L) == 1 {
+				// a flag that is still at its entry value whenever the header is reached (found-flags set before a break)
+				out[name+"=entry"] = Eq(cv.L[0], pv.L[0])
+				continue
+			}
 			if u.Info()&types.IsInteger == 0 || len(cv.L) != 1 {
 				continue
 			}
